@@ -23,6 +23,7 @@ package main
 import (
 	"fmt"
 	"os"
+	"runtime/debug"
 	"sort"
 	"strings"
 	"time"
@@ -101,7 +102,9 @@ func newNut(st state) *nut {
 		}
 		n.Use()
 		if err := n.BC.InsertBlock(node.Wire(tr.blocks[e])); err != nil {
-			panic("harness: state block " + e + " rejected: " + err.Error())
+			// the blocks of the trees are honest blocks (real assembler, reference schedule, clock far
+			// behind the node's): a node that refuses one refuses a valid block
+			panic(stateBlockRejected{st.name, e, err.Error()})
 		}
 		drain(n)
 	}
@@ -117,11 +120,14 @@ func newNut(st state) *nut {
 	return &nut{st: st, n: n, clean: true}
 }
 
+type stateBlockRejected struct{ state, block, err string }
+
 var watch = func() []common.Address {
 	l := []common.Address{node.Founder().Addr, node.K("outsider").Addr, node.K("pauper").Addr, params.DepositPoolAddress, params.TermRewardContract}
 	for i := 0; i < 3; i++ {
 		l = append(l, node.User(i).Addr, node.Deputy(i).Addr, node.K(fmt.Sprintf("income%d", i)).Addr, node.K(fmt.Sprintf("v%d", i)).Addr)
 	}
+	l = append(l, node.K("v3").Addr)
 	for i := 0; i < 4; i++ {
 		l = append(l, node.K(fmt.Sprintf("c%d", i)).Addr)
 	}
@@ -217,6 +223,9 @@ func runCase(u *nut, c caseID, all []op, r *core.Result) *nut {
 	}
 	if cx.skip {
 		r.Add("not_applicable", 1)
+		if cx.refused && len(c.Ops) == 1 && c.Clock == 0 {
+			r.Add("op["+all[c.Ops[0]].group+":"+all[c.Ops[0]].name+"]/assembler-refuses-to-package", 1)
+		}
 		return u
 	}
 	if c.FixRoots {
@@ -301,10 +310,10 @@ func runCase(u *nut, c caseID, all []op, r *core.Result) *nut {
 	if accepted {
 		u.clean = false
 		if !valid {
-			fp := prop + "/invalid-block-accepted/" + why + "/" + strings.Join(c.opNames(all), "+") + "/" + modes[c.Mode]
+			fp := prop + "/invalid-block-accepted/" + why + "/" + strings.Join(c.opNames(all), "+") + "/" + modes[c.Mode] + clockClass(c.Clock)
 			// when the UNMUTATED candidate (what the real assembler seals) already fails the reference for
 			// this very reason, the operator is not part of the minimal case: one class per candidate
-			if bok, bwhy := validRef(node.Wire(base), int64(base.Time())*1000+clocks[0].offMs, si); !bok && bwhy == why {
+			if bok, bwhy := baseVerdict(st, c.Cand, si); !bok && bwhy == why {
 				fp = prop + "/invalid-block-accepted/" + why + "/unmutated-candidate:" + cand.name
 			}
 			r.Violate(fp, fmt.Sprintf("accepted although %s: %s", why, desc), c)
@@ -337,13 +346,33 @@ func runCase(u *nut, c caseID, all []op, r *core.Result) *nut {
 			r.Add("honest-header-with-foreign-change-logs/rejected", 1)
 		}
 		if valid && dec.Height() > si.stable.Height() && termLoaded {
-			r.Violate(prop+"/valid-block-rejected/"+strings.Join(c.opNames(all), "+")+"/"+modes[c.Mode]+clockClass(c.Clock), fmt.Sprintf("rejected (%v) although the block satisfies every clause of the statement: %s", ierr, desc), c)
+			fp := prop + "/valid-block-rejected/" + strings.Join(c.opNames(all), "+") + "/" + modes[c.Mode] + clockClass(c.Clock)
+			// when what the real assembler seals for this candidate fails the reference, every operator
+			// combination that REPAIRS it is the same case: one class per candidate
+			if bok, bwhy := baseVerdict(st, c.Cand, si); !bok {
+				fp = prop + "/valid-block-rejected/corrected-version-of-unmutated-candidate:" + cand.name + "(" + bwhy + ")"
+			}
+			r.Violate(fp, fmt.Sprintf("rejected (%v) although the block satisfies every clause of the statement: %s", ierr, desc), c)
 		}
 		if valid && !(dec.Height() > si.stable.Height() && termLoaded) {
 			r.Add("valid-but-not-judgeable(term not loaded / not above stable)", 1)
 		}
 	}
 	return u
+}
+
+var baseVerdicts = map[string][2]string{}
+
+// baseVerdict: the reference's verdict on the UNMUTATED candidate at the default clock.
+func baseVerdict(st state, ci int, si *stInfo) (bool, string) {
+	k := fmt.Sprintf("%s/%d", st.name, ci)
+	if v, ok := baseVerdicts[k]; ok {
+		return v[0] == "ok", v[1]
+	}
+	base := baseBlock(st, ci)
+	ok, why := validRef(node.Wire(base), int64(base.Time())*1000+clocks[0].offMs, si)
+	baseVerdicts[k] = [2]string{map[bool]string{true: "ok", false: "no"}[ok], why}
+	return ok, why
 }
 
 func clockClass(i int) string {
@@ -530,9 +559,26 @@ func main() {
 	}
 	if i, n, ok := core.IsWorker(); ok {
 		r := core.NewResult(prop, "exploration")
-		tr = buildTree()
 		var u *nut
+		cur := "building the block trees"
+		// a panic of the code under test outside InsertBlock (while the honest chain is sealed or
+		// delivered) and a refused honest block are findings of their own, not a dead worker
+		defer func() {
+			if p := recover(); p != nil {
+				if sb, ok := p.(stateBlockRejected); ok {
+					r.Violate(prop+"/valid-block-rejected/honest-chain-block:"+sb.block, fmt.Sprintf("while state %s was built the node refused the honest block %s (%s)", sb.state, sb.block, sb.err), cases[0])
+				} else if s := fmt.Sprint(p); strings.HasPrefix(s, "harness:") {
+					panic(p)
+				} else {
+					r.Violate(prop+"/panic-outside-InsertBlock/"+firstWords(s), fmt.Sprintf("panic (%v) while %s\n%s", p, cur, clipTail(string(debug.Stack()))), cases[0])
+				}
+				r.NotExhaustive("worker stopped by a panic / a refused honest block: see violations")
+				core.WorkerDone(r)
+			}
+		}()
+		tr = buildTree()
 		for k := i; k < len(cases); k += n {
+			cur = "running case {" + cases[k].String(all) + "}"
 			// group by state so that one node serves many cases: stride over the sorted list keeps states contiguous enough
 			core.Journal(cases[k].String(all))
 			u = runCase(u, cases[k], all, r)
@@ -570,7 +616,7 @@ func main() {
 	r.Rule = fmt.Sprintf("every single mutation operator (%d operators, groups %s; group snapshot only on snapshot-height candidates, each with the DeputyRoot kept and recomputed) x %d signing modes x {tx/log roots recomputed or not} on %d (chain state, valid candidate block) pairs from %d chain states (ordinary heights, forks, after a stable advance, a pruned fork, and a term change: snapshot height, the block after it, first and second block of the new term); the valid block and every time operator additionally at %d positions of the node's clock relative to the block's timestamp (-2 s .. +2 s, millisecond parts 0 and 999); thorough adds all pairs of operators from different groups re-signed by a deputy and every operator at the two clock positions around the tolerance; an outcome is (verdict, operator group, signing mode) or (clock position, verdict)", len(all), strings.Join(gl, " "), len(modes), nc, len(states), len(clocks)-1)
 	r.Assume = []string{
 		"3 genesis deputies, 10 s slots, observer node; the node's clock is the harness's virtual clock (instrumenter pass `time` on chain and chain/consensus): 61 s (two rounds and a second) after the candidate's timestamp unless the case names a clock position",
-		fmt.Sprintf("params.TermDuration=%d, params.InterimDuration=%d for the whole process (snapshot height %d, the new term signs from height %d); 3 deputy seats, 7 registered candidates with votes {~150000, 50000 x4 (tie broken by address, two above and two below the cut), ~10000, 0}", termDur, interim, termDur, termDur+interim+1),
+		fmt.Sprintf("params.TermDuration=%d, params.InterimDuration=%d for the whole process (snapshot height %d, the new term signs from height %d); 3 deputy seats, 7 registered candidates with votes {~150000, ~60000, 50000 x3 (tie broken by address: one above, two below the cut), ~10000, 0}; the elected list differs from the ranking one block earlier", termDur, interim, termDur, termDur+interim+1),
 		"gasLimit and extra are the miner's free choices (validRef re-executes with the block's own values)",
 		"oracle 3 (a block satisfying every clause is not refused) reads the statement's one-second tolerance as granted, not merely permitted; it is only applied above the stable height and when the signing term can be known to the node",
 	}
@@ -619,7 +665,7 @@ func coverage(r *core.Result, all []op) {
 	for _, o := range all {
 		k := "op[" + o.group + ":" + o.name + "]/"
 		hit[o.group] += r.Counters[k+"accepted"] + r.Counters[k+"rejected"]
-		if r.Counters[k+"accepted"]+r.Counters[k+"rejected"] == 0 {
+		if r.Counters[k+"accepted"]+r.Counters[k+"rejected"]+r.Counters[k+"assembler-refuses-to-package"] == 0 {
 			r.NotExhaustive("coverage: operator " + o.group + ":" + o.name + " was never applied")
 		}
 	}
